@@ -135,7 +135,7 @@ contract(Contract(
     types={"segments": "list[tuple[str,nref:RawTextEl]]", "child": "ref:Element", "children": "list[ref:Element]"},
     calls={
         "hasattr": Callee("custom", handler=true_),
-        "Element.children": Callee("custom", handler=children_attr),
+        "Element.children": Callee("attrfn", handler=children_attr),
         "_collect_inline_segments": Callee("uf", ret="list[tuple[str,nref:RawTextEl]]", sig=["element"], post=segments_post),
     },
     loops={0: Loop(inv={"segs": Clause(lambda ex: _segments_ok(ex, ex.as_vlist(ex.envs[0]["segments"], ("str", "nref:RawTextEl"))))})},
